@@ -270,6 +270,7 @@ def _vk(f, A, S):
     out = [s.scrn.copy()]
     for _ in range(S["rows"]):
         out.append(s.add_row().copy())
+    _restart_replays(s, S, out)
     return out
 
 
@@ -278,13 +279,29 @@ def _kol(f, A, S):
     out = [s.scrn.copy()]
     for _ in range(S["rows"]):
         out.append(s.add_row().copy())
+    _restart_replays(s, S, out)
     return out
 
 
+def _restart_replays(s, S, out):
+    """the same call (make_initial_screen with the same seed, then the same number of add_row) made twice on one object must
+    return equal results"""
+    import numpy
+    if not S.get("restart"):
+        return
+    s.make_initial_screen()
+    again = [s.scrn.copy()]
+    for _ in range(S["rows"]):
+        again.append(s.add_row().copy())
+    for k, (a, b) in enumerate(zip(out, again)):
+        if a.shape != b.shape or not numpy.array_equal(a, b):
+            raise HiddenStateDetected("make_initial_screen() + %d x add_row() repeated on the same object differs from the first time at row %d" % (S["rows"], k))
+
+
 E("aotools.turbulence.infinitephasescreen.PhaseScreenVonKarman", [],
-  lambda r, z: {"nx": r.choice([6, 9]), "seed": r.choice([0, 3, 99]), "k": r.choice([1, 2]), "rows": r.randint(0, 3)}, _vk, weight=3.0)
+  lambda r, z: {"nx": r.choice([6, 9]), "seed": r.choice([0, 3, 99]), "k": r.choice([1, 2]), "rows": r.randint(0, 3), "restart": r.choice([False, True])}, _vk, weight=3.0)
 E("aotools.turbulence.infinitephasescreen.PhaseScreenKolmogorov", [],
-  lambda r, z: {"nx": r.choice([5, 7]), "seed": r.choice([0, 3, 99]), "k": r.choice([1, 2]), "rows": r.randint(0, 3)}, _kol, weight=3.0)
+  lambda r, z: {"nx": r.choice([5, 7]), "seed": r.choice([0, 3, 99]), "k": r.choice([1, 2]), "rows": r.randint(0, 3), "restart": r.choice([False, True])}, _kol, weight=3.0)
 E("aotools.turbulence.turb.phase_covariance", [("r", ["vec_pos", "img2d", "r32", "vec_inc"])], lambda r, z: {"r0": 0.15, "L0": r.choice([10.0, 25.0])},
   lambda f, A, S: f(A["r"], S["r0"], S["L0"]))
 
@@ -361,6 +378,10 @@ def omit_defaults(f):
         return f(*args, **kw)
     _OMIT[f] = g
     return g
+
+
+class HiddenStateDetected(Exception):
+    """raised by a call wrapper when the same call repeated on the same object gives another result"""
 
 
 class ArgumentContainerModified(Exception):
